@@ -828,7 +828,9 @@ def run(ctx):
             tasks += _sweep_tasks(cfg, 3, ["direct"])
         if not ctx.quick:
             for cfg in (DEFAULT_CFG, SECOND_CFG):
-                big += [dict(cfg=cfg, fam="sweep", arg=[4, s0], routes=["direct"]) for s0 in SEGS]
+                # split 6 ways: bounds the number of templates one lookup (one worker) holds
+                big += [dict(cfg=cfg, fam="sweep", arg=[4, s0], routes=["direct"], split=[j, 6])
+                        for s0 in SEGS for j in range(6)]
     if want("families"):
         fam_cfgs = QUICK_FAM_CFGS if ctx.quick else all_cfgs()
         for cfg in fam_cfgs:
@@ -838,7 +840,7 @@ def run(ctx):
         if ctx.quick:
             tasks += _sweep_tasks(QUICK_CFGS[0], 3, ["callers"], split=2)
         else:
-            for cfg in (QUICK_CFGS[0], SECOND_CFG, QUICK_CFGS[3], QUICK_FAM_CFGS[1]):
+            for cfg in (QUICK_CFGS[0], SECOND_CFG, QUICK_FAM_CFGS[0]):
                 tasks += _sweep_tasks(cfg, 3, ["callers-all"], split=8)
     if want("literal"):
         # strided sample of the product URI x kind x depth with the URI written into the calling template
@@ -848,7 +850,7 @@ def run(ctx):
     # longest tasks first
     ctx.pmap(shard_sweep, sorted(big + tasks, key=_cost))
     if want("random"):
-        n = ctx.pick(250, 5000)
+        n = ctx.pick(250, 4000)
         ctx.pmap(shard_random, [(ctx.shard_seed(i, "random"), n) for i in range(16)])
     if ev.labels.get("caller-unavailable") and not ctx.failures:
         raise core.HarnessError("calling templates could not be loaded %d times (%s) and no violation was found"
